@@ -8,7 +8,8 @@ CONSTANTS MIds, MVoters, MLearners, PreVoteOn, CheckQuorumOn,
           AllowDrop, AllowDup, AllowAsync, AllowCrash, PrintReplay, Fine,
           EagerReady, QuiescentTicks, MaxLeaderTicks, TickNodes, MaxDrops,
           MaxTransfers, TransferTargets, MaxConf, ConfMenuIds, MaxReads, LazyApply, AllowCompact, ProposeAnywhere,
-          MaxDups, TargetPreds, DropTypes, DropTo, DupTypes, CompactNodes
+          MaxDups, TargetPreds, DropTypes, DropTo, DupTypes, CompactNodes,
+          MaxReqSnaps, ReqSnapNodes, MaxUnreach
 
 K0 == [election_tick |-> 3, heartbeat_tick |-> 1, max_size_per_msg |-> NoLimit, max_inflight |-> 2,
        check_quorum |-> CheckQuorumOn, pre_vote |-> PreVoteOn, skip_bcast_commit |-> FALSE, batch_append |-> FALSE,
@@ -75,6 +76,10 @@ Next ==
                       \/ (AllowCompact /\ (CompactNodes = {} \/ i \in CompactNodes) /\ ~(EagerReady /\ SomeReady) /\ MakeSnapA(i))
                       \/ (AllowCompact /\ (CompactNodes = {} \/ i \in CompactNodes) /\ ~(EagerReady /\ SomeReady) /\ CompactA(i, SnapPointOf(i)))
                       \/ (\E rp \in app[i].reports : ReportSnapA(i, rp[1], rp[2]))
+                      \/ (Count("RequestSnap") < MaxReqSnaps /\ i \in ReqSnapNodes /\ ~(EagerReady /\ SomeReady)
+                            /\ node[i].role # "L" /\ node[i].lead # 0 /\ node[i].prs = 0 /\ RequestSnapA(i))
+                      \/ (Count("Unreachable") < MaxUnreach /\ ~(EagerReady /\ SomeReady) /\ node[i].role = "L"
+                            /\ \E j \in Ids \ {i} : UnreachableA(i, j))
                       \/ (AllowCrash /\ Count("Crash") < MaxCrashes /\ CrashA(i))
                       \/ RestartA(i)
     \/ \E m \in BagToSet(net) : ~(EagerReady /\ SomeReady) /\
